@@ -155,6 +155,10 @@ func (w *World) instrMods(in ssa.Instruction) map[string]int {
 	case *ssa.Alloc:
 		out["alloc"] = 2
 		add(w.storeKeys(in))
+		if _, ok := types.Unalias(in.Type().(*types.Pointer).Elem()).(*types.Named); ok {
+			w.heapSort["typ"] = "(Array Int Int)"
+			out["typ"] = 1
+		}
 	case *ssa.MakeMap:
 		mt := types.Unalias(in.Type()).Underlying().(*types.Map)
 		d, _, c, _, _ := w.mapKeys(mt)
@@ -612,7 +616,11 @@ func (g *FnGen) applyContract(ci *calleeInfo, args []Term, fvs map[string]SVal, 
 				}
 			}
 		}
-		g.xexits = append(g.xexits, xexit{fmt.Sprintf("(and %s %s)", reach, pan.S), xs, posOf(w, pos) + " call " + ci.short, len(g.defers)})
+		xb := 0
+		if g.curInstr != nil && g.curInstr.Block() != nil {
+			xb = g.curInstr.Block().Index
+		}
+		g.xexits = append(g.xexits, xexit{xb, fmt.Sprintf("(and %s %s)", reach, pan.S), xs, posOf(w, pos) + " call " + ci.short, len(g.defers)})
 		// normal continuation: the call returned
 		reach = g.define(g.fresh("reach.ret"), Term{fmt.Sprintf("(and %s (not %s))", reach, pan.S), "Bool"}).S
 		g.curReach = reach
